@@ -49,6 +49,15 @@ def boot():
     want = os.path.realpath(os.path.join(REPO_SRC, "aioswitcher"))
     if got != want:
         raise HarnessError(f"aioswitcher imported from {got}, expected {want}")
+    # every submodule is imported now, so that confine_clocks() sees all of them
+    import importlib
+    import pkgutil
+    for info in pkgutil.walk_packages(aioswitcher.__path__, "aioswitcher."):
+        try:
+            importlib.import_module(info.name)
+        except Exception as exc:
+            raise HarnessError(f"cannot import {info.name} from {REPO_SRC}: {exc!r}")
+    confine_clocks()
     import logging
     lg = logging.getLogger("aioswitcher")
     lg.addHandler(logging.NullHandler())
@@ -70,6 +79,43 @@ def boot():
     except Exception as exc:
         raise HarnessError(f"missing dependency: {exc!r} (run MANIFEST.setup_cmd)")
     return aioswitcher
+
+
+VOFFSET = [0.0]       # seconds the harness-owned clocks are ahead of the real monotonic clock (only ever grows)
+
+
+def confine_clocks():
+    """Inside the aioswitcher modules (and only there) time.monotonic / time.perf_counter (+ _ns) read the harness-owned
+    clock: real value + VOFFSET, the same offset the event loops of the harness use (fake.net).  Done by rebinding, in every
+    aioswitcher module, names that refer to the `time` module or to those functions; Hypothesis, asyncio internals and the
+    harness keep the real ones.  time.time / localtime / ... are time_machine's business and pass through untouched."""
+    import time as rt
+    import types
+
+    def shifted(fn, ns=False):
+        if ns:
+            return lambda: fn() + int(VOFFSET[0] * 1_000_000_000)
+        return lambda: fn() + VOFFSET[0]
+    repl = {rt.monotonic: shifted(rt.monotonic), rt.perf_counter: shifted(rt.perf_counter),
+            rt.monotonic_ns: shifted(rt.monotonic_ns, True), rt.perf_counter_ns: shifted(rt.perf_counter_ns, True)}
+
+    class _Time(types.ModuleType):
+        def __getattr__(self, name):
+            return getattr(rt, name)
+    vt = _Time("time")
+    vt.__dict__.update({"monotonic": repl[rt.monotonic], "perf_counter": repl[rt.perf_counter],
+                        "monotonic_ns": repl[rt.monotonic_ns], "perf_counter_ns": repl[rt.perf_counter_ns]})
+    for name, mod in list(sys.modules.items()):
+        if not (name == "aioswitcher" or name.startswith("aioswitcher.")) or mod is None:
+            continue
+        for attr, val in list(vars(mod).items()):
+            try:
+                if val is rt:
+                    setattr(mod, attr, vt)
+                elif val in repl:
+                    setattr(mod, attr, repl[val])
+            except TypeError:
+                continue
 
 
 def in_repo(filename: str) -> bool:
